@@ -65,6 +65,11 @@ func runGenerate(prof *Profile, seed uint64, verbose bool) (res *RunResult) {
 
 // runReplay executes a recorded trace.
 func runReplay(prof *Profile, trace []Op, verbose bool) (res *RunResult) {
+	return runReplayOpt(prof, trace, verbose, false)
+}
+
+// runReplayOpt: restartEveryBlock rebuilds the application from the DB before every block.
+func runReplayOpt(prof *Profile, trace []Op, verbose bool, restartEveryBlock bool) (res *RunResult) {
 	res = &RunResult{Trace: trace}
 	var s *Sim
 	defer func() {
@@ -91,6 +96,7 @@ func runReplay(prof *Profile, trace []Op, verbose bool) (res *RunResult) {
 		s = NewSim(prof)
 	}
 	s.Verbose = verbose
+	s.RestartEveryBlock = restartEveryBlock
 	for _, op := range trace {
 		s.curOp = op.ID
 		s.Exec(op)
